@@ -46,12 +46,19 @@ CONSTANTS Keys,      \* set of positive integers
           MaxIt,     \* number of iterator slots
           Sorted,    \* "none" | "key" | "val"
           Ops,       \* names of the calls that may be made
-          Wrong,     \* deliberately wrong variants of the specification (vacuity guards): subset of {"remove_no_fixup", "no_reorder_exemption"}
+          PutVals,   \* "any" | "key": "key" restricts the Put calls to value = key (tie-free, single-outcome instances for the replay of the sorting classes)
+          Wrong,     \* deliberately wrong variants of the specification (vacuity guards): subset of {"remove_no_fixup", "no_reorder_exemption", "moves_keep_tight"}
           GHOST,     \* TRUE: maintain the traversal ghosts (seen / must / re / fin / twice) needed by NoSkip, NoTwice
           RECORD     \* TRUE: keep the step record `last` (behaviour generation, trace validation)
 
-VARIABLES tbl, oth, its, last
-vars == <<tbl, oth, its, last>>
+VARIABLES tbl, oth, its, last,
+          ord        \* sorting classes only, for the table object tbl: [auto |-> SetAutoSortEnabled state (on by default),
+                     \*   loose |-> an explicit move / positional put took effect, or a Put appended with auto-sort off, since the table was last sorted].
+                     \* The header: with auto-sort off a Put is not moved to its sorted place; the explicit moves are allowed on the sorting classes
+                     \* ("likely to unsort the traversal ordering ... calling Sort() will restore the sort-order"); with auto-sort on "Put() expects the
+                     \* table's contents to already be sorted ... if they aren't, it won't insert its new item at the correct location": such Puts are
+                     \* not generated (no documented outcome).  oth always has auto-sort on and is never moved in.
+vars == <<tbl, oth, its, last, ord>>
 
 N0 == Cardinality(Keys)
 Pos == 0..N0              \* position arguments (values >= number of items mean "last")
@@ -132,9 +139,11 @@ ToPosition(t, I, n, k, p) == IF p = 0 THEN ToFront(t, I, n, k)
                              ELSE MoveK(t, I, n, k, p, FALSE)        \* the general path always unlinks
 
 \* Put(k, v): the SET of allowed outcomes.  W = witness order of keys (or <<>>).
-PutSet(t, I, n, k, v, W) ==
+PutSet(t, I, n, k, v, W, auto) ==
     IF Sorted = "none" THEN
         {IF k \in KeysOf(t) THEN TR(SetVal(t, k, v), I, 1) ELSE TR(Append(t, <<k, v>>), I, 1)}
+    ELSE IF ~auto THEN      \* auto-sort off: a new key is appended like in a plain table; replacing a value is not generated (the header does not say whether the entry moves)
+        (IF k \in KeysOf(t) THEN {} ELSE {TR(Append(t, <<k, v>>), I, 1)})
     ELSE IF k \notin KeysOf(t) THEN
         {TR(InsertAt(t, p, <<k, v>>), I, 1) : p \in {q \in 0..Len(t) : IsSorted(InsertAt(t, q, <<k, v>>)) /\ (W = <<>> \/ (q + 1 \in DOMAIN W /\ W[q + 1] = k))}}
     ELSE LET t1 == SetVal(t, k, v)  rest == Without(t1, k)  pold == Idx(t1, k) - 1 IN
@@ -160,23 +169,39 @@ On1(w, r) == [WR(r.t, w.o, r.its, r.res) EXCEPT !.mv = r.mv]     \* a one-table 
 OnSet(w, S) == {On1(w, r) : r \in S}
 Same(w, res) == {WR(w.t, w.o, w.its, res)}
 Has(w, k) == k \in KeysOf(w.t)
+\* the calls that involve the order of both tables are generated for the sorting classes only while tbl is auto-sorting and sorted
+Tight(w) == Sorted = "none" \/ (w.ord.auto /\ IsSorted(w.t))
+Ord0 == [auto |-> TRUE, loose |-> FALSE]
+PutKinds  == {"Put", "PutPrev", "PutIfAbsent", "GetOrPut", "PutOrRemove"}
+MoveKinds == {"PutAtFront", "PutAtBack", "PutBefore", "PutBehind", "PutAtPosition", "GetAndMoveToFront", "GetAndMoveToBack",
+              "MoveToFront", "MoveToBack", "MoveToBefore", "MoveToBehind", "MoveToPosition", "SortByKey", "SortByValue"}
+NewOrd(op, a, b, w, r) ==
+    IF Sorted = "none" THEN w.ord ELSE
+    LET o == w.ord IN
+    CASE op \in {"SortSelf", "Clear", "AssignFrom"} -> [o EXCEPT !.loose = FALSE]
+      [] op = "Destroy" -> Ord0                                            \* a new table object
+      [] op = "SetAutoSort" -> IF (a = 1) = o.auto THEN o ELSE [auto |-> (a = 1), loose |-> IF a = 1 /\ b = 1 THEN FALSE ELSE o.loose]
+      [] op \in MoveKinds -> [o EXCEPT !.loose = @ \/ (r.mv /\ "moves_keep_tight" \notin Wrong)]
+      [] op \in PutKinds  -> [o EXCEPT !.loose = @ \/ (~o.auto /\ Len(r.t) > Len(w.t))]
+      [] OTHER -> o
 
 \* Put followed by a move of the (now present) key
-PutThen(w, k, v, Mv(_, _)) == {LET m == Mv(r.t, r.its) IN [WR(m.t, w.o, m.its, 1) EXCEPT !.mv = r.mv \/ m.mv] : r \in PutSet(w.t, w.its, 1, k, v, <<>>)}
+PutThen(w, k, v, Mv(_, _)) == {LET m == Mv(r.t, r.its) IN [WR(m.t, w.o, m.its, 1) EXCEPT !.mv = r.mv \/ m.mv] : r \in PutSet(w.t, w.its, 1, k, v, <<>>, w.ord.auto)}
 
 TableOps == {"Put", "PutPrev", "PutIfAbsent", "GetOrPut", "PutOrRemove", "PutAtFront", "PutAtBack", "PutBefore", "PutBehind", "PutAtPosition",
              "GetAndMoveToFront", "GetAndMoveToBack", "Remove", "RemoveGet", "RemoveFirst", "RemoveLast",
              "MoveToFront", "MoveToBack", "MoveToBefore", "MoveToBehind", "MoveToPosition",
              "SortByKey", "SortByValue", "SortSelf", "Reposition", "Swap", "Clear", "Destroy", "AssignFrom", "AssignTo", "PutAll", "MoveToTable",
-             "RemoveAll", "Intersect", "EnsureSize", "ShrinkToFit"}
+             "RemoveAll", "Intersect", "EnsureSize", "ShrinkToFit", "SetAutoSort"}
 QueryOps == {"Get", "IndexOfKey", "IndexOfValue", "GetKeyAt", "GetValueAt", "GetFirstKey", "GetLastKey", "GetKeyBefore", "GetKeyAfter",
              "ContainsValue", "NumItems", "IsEqualTo"}
 IterOps  == {"ItNew", "ItNewAt", "ItAdv", "ItRet", "ItFlip", "ItDel", "ItCopy"}
 
 \* argument domains: <<a, b, c>> (0 where unused)
 Args(op) ==
-    CASE op \in {"Put", "PutPrev", "PutIfAbsent", "GetOrPut", "PutAtFront", "PutAtBack"} -> Keys \X Vals \X {0}
-      [] op = "PutOrRemove" -> Keys \X (Vals \cup {0}) \X {0}
+    CASE op \in {"Put", "PutPrev", "PutIfAbsent", "GetOrPut", "PutAtFront", "PutAtBack"} -> {x \in Keys \X Vals \X {0} : PutVals = "any" \/ x[2] = x[1]}
+      [] op = "PutOrRemove" -> {x \in Keys \X (Vals \cup {0}) \X {0} : PutVals = "any" \/ x[2] \in {0, x[1]}}
+      [] op = "SetAutoSort" -> {0, 1} \X {0, 1} \X {0}                 \* SetAutoSortEnabled(enabled, sortNow)
       [] op \in {"PutBefore", "PutBehind"} -> Keys \X Keys \X Vals
       [] op = "PutAtPosition" -> Keys \X Pos \X Vals
       [] op \in {"GetAndMoveToFront", "GetAndMoveToBack", "Remove", "RemoveGet", "MoveToFront", "MoveToBack", "MoveToTable", "Reposition",
@@ -198,11 +223,11 @@ Args(op) ==
 \* W1 / W2: witness orders for tbl / oth after the call (<<>> = none)
 DoTable(w, op, a, b, c, W1, W2) ==
     LET t == w.t  I == w.its IN
-    CASE op = "Put" -> OnSet(w, PutSet(t, I, 1, a, b, W1))
-      [] op = "PutPrev" -> {On1(w, [r EXCEPT !.res = Val(t, a)]) : r \in PutSet(t, I, 1, a, b, W1)}          \* previous value, 0 = nothing replaced
-      [] op = "PutIfAbsent" -> IF Has(w, a) THEN Same(w, 0) ELSE OnSet(w, PutSet(t, I, 1, a, b, W1))
-      [] op = "GetOrPut" -> IF Has(w, a) THEN Same(w, Val(t, a)) ELSE {On1(w, [r EXCEPT !.res = b]) : r \in PutSet(t, I, 1, a, b, W1)}
-      [] op = "PutOrRemove" -> IF b = 0 THEN {On1(w, [RemoveK(t, I, 1, a) EXCEPT !.res = 1])} ELSE OnSet(w, PutSet(t, I, 1, a, b, W1))
+    CASE op = "Put" -> OnSet(w, PutSet(t, I, 1, a, b, W1, w.ord.auto))
+      [] op = "PutPrev" -> {On1(w, [r EXCEPT !.res = Val(t, a)]) : r \in PutSet(t, I, 1, a, b, W1, w.ord.auto)}          \* previous value, 0 = nothing replaced
+      [] op = "PutIfAbsent" -> IF Has(w, a) THEN Same(w, 0) ELSE OnSet(w, PutSet(t, I, 1, a, b, W1, w.ord.auto))
+      [] op = "GetOrPut" -> IF Has(w, a) THEN Same(w, Val(t, a)) ELSE {On1(w, [r EXCEPT !.res = b]) : r \in PutSet(t, I, 1, a, b, W1, w.ord.auto)}
+      [] op = "PutOrRemove" -> IF b = 0 THEN {On1(w, [RemoveK(t, I, 1, a) EXCEPT !.res = 1])} ELSE OnSet(w, PutSet(t, I, 1, a, b, W1, w.ord.auto))
       [] op = "PutAtFront" -> PutThen(w, a, b, LAMBDA x, y : ToFront(x, y, 1, a))
       [] op = "PutAtBack"  -> PutThen(w, a, b, LAMBDA x, y : ToBack(x, y, 1, a))
       [] op = "PutBefore"  -> PutThen(w, a, c, LAMBDA x, y : IF b # a /\ b \in KeysOf(x) THEN ToBefore(x, y, 1, a, b) ELSE TR(x, y, 1))
@@ -222,16 +247,19 @@ DoTable(w, op, a, b, c, W1, W2) ==
       \* sorting relinks the list without touching the iterators: a cursor stays on its entry
       [] op = "SortByKey"   -> {WR(SortBy(t, "key"), w.o, I, 0)}
       [] op = "SortByValue" -> {WR(SortBy(t, "val"), w.o, I, 0)}
-      [] op = "SortSelf"    -> {WR(IF Sorted = "none" THEN t ELSE SortBy(t, Sorted), w.o, I, 0)}
-      [] op = "Reposition"  -> IF ~Has(w, a) THEN Same(w, 0) ELSE IF Sorted = "none" THEN Same(w, 1) ELSE OnSet(w, PutSet(t, I, 1, a, Val(t, a), W1))
-      [] op = "Swap"    -> {WR(w.o, t, SwapIts(I), 0)}
+      [] op = "SortSelf"    -> IF Sorted = "none" THEN Same(w, 0) ELSE {WR(x, w.o, I, 0) : x \in SortedArrangements(t, W1)}    \* Sort(): sorted, ties free
+      [] op = "SetAutoSort" -> IF Sorted = "none" \/ (a = 1) = w.ord.auto \/ ~(a = 1 /\ b = 1) THEN Same(w, 0)
+                               ELSE {WR(x, w.o, I, 0) : x \in SortedArrangements(t, W1)}                                     \* switched on with sortNow: Sort() is called
+      [] op = "Reposition"  -> IF ~Has(w, a) THEN Same(w, 0) ELSE IF Sorted = "none" THEN Same(w, 1) ELSE OnSet(w, PutSet(t, I, 1, a, Val(t, a), W1, TRUE))
+      [] op = "Swap"    -> IF Tight(w) THEN {WR(w.o, t, SwapIts(I), 0)} ELSE {}
       [] op \in {"Clear", "Destroy"} -> {WR(<<>>, w.o, DetachIts(I, 1, t), 0)}
       [] op = "AssignFrom" -> {WR(w.o, w.o, DetachIts(I, 1, t), 0)}                                              \* tbl = oth
-      [] op = "AssignTo"   -> {WR(t, t, DetachIts(I, 2, w.o), 0)}                                                \* oth = tbl
-      [] op = "PutAll" -> IF Sorted = "none" \/ w.o = <<>> THEN {WR(PutAllSeq(t, w.o), w.o, I, 1)}
+      [] op = "AssignTo"   -> IF Tight(w) THEN {WR(t, t, DetachIts(I, 2, w.o), 0)} ELSE {}                                 \* oth = tbl
+      [] op = "PutAll" -> IF ~Tight(w) THEN {}
+                          ELSE IF Sorted = "none" \/ w.o = <<>> THEN {WR(PutAllSeq(t, w.o), w.o, I, 1)}
                           ELSE {WR(s, w.o, I, 1) : s \in SortedArrangements(PutAllSeq(t, w.o), W1)}
       [] op = "MoveToTable" -> IF ~Has(w, a) THEN Same(w, 0)
-                               ELSE {LET r == RemoveK(t, p.its, 1, a) IN [WR(r.t, p.t, r.its, 1) EXCEPT !.mv = p.mv] : p \in PutSet(w.o, I, 2, a, Val(t, a), W2)}
+                               ELSE {LET r == RemoveK(t, p.its, 1, a) IN [WR(r.t, p.t, r.its, 1) EXCEPT !.mv = p.mv] : p \in PutSet(w.o, I, 2, a, Val(t, a), W2, TRUE)}
       [] op = "RemoveAll" -> {On1(w, RemoveSeq(t, I, 1, KeySeq(w.o), 0))}                                        \* tbl.Remove(oth): number removed
       [] op = "Intersect" -> {On1(w, RemoveSeq(t, I, 1, KeySeq(SelectSeq(t, LAMBDA e : e[1] \notin KeysOf(w.o))), 0))}
       [] op \in {"EnsureSize", "ShrinkToFit"} -> Same(w, 1)
@@ -296,7 +324,7 @@ GhostFix(w, r) ==
                         !.re = @ \/ ((r.mv \/ Reordered(ot, nt)) /\ "no_reorder_exemption" \notin Wrong)]]
 
 ------------------------------------------------------------------------------
-W0 == [t |-> tbl, o |-> oth, its |-> its]
+W0 == [t |-> tbl, o |-> oth, its |-> its, ord |-> ord]
 ItObs(w, it) == IF ~it.live THEN [h |-> -1, k |-> 0, v |-> 0]
                 ELSE IF it.sk # 0 THEN [h |-> 1, k |-> it.sk, v |-> it.sv]
                 ELSE IF it.pos # 0 THEN [h |-> 1, k |-> it.pos, v |-> Val(TabOf(w, it.tab), it.pos)]
@@ -308,12 +336,12 @@ Rec(op, a, b, c, r) == [op |-> op, a |-> a, b |-> b, c |-> c, res |-> r.res,
 
 \* all outcomes of a call on the current state, iterators normalised and ghosts updated
 Outcomes(op, a, b, c, W1, W2) ==
-    IF op \in TableOps THEN {[r EXCEPT !.its = Normalize(GhostFix(W0, r))] : r \in DoTable(W0, op, a, b, c, W1, W2)}
-    ELSE IF op \in QueryOps THEN {WR(tbl, oth, its, DoQuery(W0, op, a, b, c))}
-    ELSE {WR(tbl, oth, Normalize(J), 0) : J \in DoIter(W0, op, a, b, c)}
+    IF op \in TableOps THEN {[t |-> r.t, o |-> r.o, its |-> Normalize(GhostFix(W0, r)), res |-> r.res, mv |-> r.mv, ord |-> NewOrd(op, a, b, W0, r)] : r \in DoTable(W0, op, a, b, c, W1, W2)}
+    ELSE IF op \in QueryOps THEN {[WR(tbl, oth, its, DoQuery(W0, op, a, b, c)) EXCEPT !.mv = FALSE] @@ [ord |-> ord]}
+    ELSE {WR(tbl, oth, Normalize(J), 0) @@ [ord |-> ord] : J \in DoIter(W0, op, a, b, c)}
 
 Apply(op, a, b, c, r) ==
-    /\ tbl' = r.t /\ oth' = r.o /\ its' = r.its
+    /\ tbl' = r.t /\ oth' = r.o /\ its' = r.its /\ ord' = r.ord
     /\ last' = IF RECORD THEN Rec(op, a, b, c, r) ELSE last
 
 Call(op) == /\ op \in Ops
@@ -357,6 +385,7 @@ aRemoveAll == TRUE /\ Call("RemoveAll")
 aIntersect == TRUE /\ Call("Intersect")
 aEnsureSize == TRUE /\ Call("EnsureSize")
 aShrinkToFit == TRUE /\ Call("ShrinkToFit")
+aSetAutoSort == TRUE /\ Call("SetAutoSort")
 aGet == TRUE /\ Call("Get")
 aIndexOfKey == TRUE /\ Call("IndexOfKey")
 aIndexOfValue == TRUE /\ Call("IndexOfValue")
@@ -377,10 +406,10 @@ aItFlip == TRUE /\ Call("ItFlip")
 aItDel == TRUE /\ Call("ItDel")
 aItCopy == TRUE /\ Call("ItCopy")
 
-Init == /\ tbl = <<>> /\ oth = <<>> /\ its = [i \in ItIds |-> NoIt] /\ last = [op |-> "Init"]
+Init == /\ tbl = <<>> /\ oth = <<>> /\ its = [i \in ItIds |-> NoIt] /\ last = [op |-> "Init"] /\ ord = Ord0
 Next == \/ aPut \/ aPutPrev \/ aPutIfAbsent \/ aGetOrPut \/ aPutOrRemove \/ aPutAtFront \/ aPutAtBack \/ aPutBefore \/ aPutBehind \/ aPutAtPosition \/ aGetAndMoveToFront \/ aGetAndMoveToBack
         \/ aRemove \/ aRemoveGet \/ aRemoveFirst \/ aRemoveLast \/ aMoveToFront \/ aMoveToBack \/ aMoveToBefore \/ aMoveToBehind \/ aMoveToPosition \/ aSortByKey \/ aSortByValue \/ aSortSelf \/ aReposition
-        \/ aSwap \/ aClear \/ aDestroy \/ aAssignFrom \/ aAssignTo \/ aPutAll \/ aMoveToTable \/ aRemoveAll \/ aIntersect \/ aEnsureSize \/ aShrinkToFit
+        \/ aSwap \/ aClear \/ aDestroy \/ aAssignFrom \/ aAssignTo \/ aPutAll \/ aMoveToTable \/ aRemoveAll \/ aIntersect \/ aEnsureSize \/ aShrinkToFit \/ aSetAutoSort
         \/ aGet \/ aIndexOfKey \/ aIndexOfValue \/ aGetKeyAt \/ aGetValueAt \/ aGetFirstKey \/ aGetLastKey \/ aGetKeyBefore \/ aGetKeyAfter \/ aContainsValue \/ aNumItems \/ aIsEqualTo
         \/ aItNew \/ aItNewAt \/ aItAdv \/ aItRet \/ aItFlip \/ aItDel \/ aItCopy
 Spec == Init /\ [][Next]_vars
@@ -390,9 +419,10 @@ Spec == Init /\ [][Next]_vars
 IsTable(t) == /\ \A i, j \in DOMAIN t : i # j => t[i][1] # t[j][1]
               /\ \A i \in DOMAIN t : t[i][1] \in Keys /\ t[i][2] \in Vals
 TypeOK == /\ IsTable(tbl) /\ IsTable(oth)
+          /\ ord.auto \in BOOLEAN /\ ord.loose \in BOOLEAN
           /\ \A i \in ItIds : its[i].tab \in 0..2 /\ its[i].pos \in Keys \cup {0} /\ its[i].sk \in Keys \cup {0} /\ its[i].dir \in {0, 1}
-\* the auto-sorting classes stay sorted whatever is done to them (only their own operations are in Ops)
-StaysSorted == IsSorted(tbl) /\ IsSorted(oth)
+\* the auto-sorting classes stay sorted while auto-sort is on and no explicit move took effect since the table was last sorted
+StaysSorted == IsSorted(oth) /\ ((ord.auto /\ ~ord.loose) => IsSorted(tbl))
 \* an iterator never refers to a removed entry: its cursor is linked to an entry that exists in the table it is registered with, or to nothing
 IterSafe == \A i \in ItIds : its[i].live =>
                /\ (its[i].tab = 0 => its[i].pos = 0)
